@@ -95,6 +95,54 @@ Definition c12_go_pd : parsed :=
                                            {| vid := c12_mkid (lit "A"); vcomments := [] |}];
                       edecs := []; erecursive := false; eredacted := false |}];
      p_aliases := []; p_consts := []; p_type_names := []; p_errors := []; p_imports := [] |}.
+(* ---- Python: witnesses of the two classes, non-vacuity ---- *)
+From TS Require Import Model.Lang.Python.
+Definition c12_py_cfg0 : py_config := {| py_type_mappings := []; py_no_version_header := true; py_version := [] |}.
+Definition c12_py_alias_pd : parsed :=
+  {| p_structs := []; p_enums := [];
+     p_aliases := [{| aid := c12_mkid (lit "GA"); agenerics := [lit "T"]; atype := RVec (RSimple (lit "T"));
+                      acomments := []; adecs := []; aredacted := false |}];
+     p_consts := []; p_type_names := []; p_errors := []; p_imports := [] |}.
+Definition c12_py_default_pd : parsed :=
+  {| p_structs := [{| sid := c12_mkid (lit "S"); sgenerics := [];
+                      sfields := [{| fid := c12_mkid (lit "at"); fty := RPrim PDateTime; fcomments := [];
+                                     has_default := true; fdecs := [] |}];
+                      scomments := []; sdecs := []; sredacted := false |}];
+     p_enums := []; p_aliases := []; p_consts := []; p_type_names := []; p_errors := []; p_imports := [] |}.
+
+Theorem c12_python_alias_typevar_refuted :
+  c12_py_known c12_py_cfg0 c12_py_alias_pd = Some "C12-python-alias-typevar"%string /\
+  c12_py_dom c12_py_cfg0 (items_of c12_py_alias_pd) = true /\
+  exists uses defs, c12_py_observe uc_exec c12_py_cfg0 c12_py_alias_pd = Ok (uses, defs) /\
+                    In (lit "T") uses /\ ~ In (lit "T") defs /\ c12_good uses defs = false.
+Proof.
+  split; [vm_compute; reflexivity|]. split; [vm_compute; reflexivity|].
+  eexists. eexists. split; [vm_compute; reflexivity|].
+  split; [vm_compute; auto|]. split; [|vm_compute; reflexivity].
+  intros H. vm_compute in H. repeat (destruct H as [H|H]; [discriminate H|]). exact H.
+Qed.
+
+Theorem c12_python_default_translation_refuted :
+  c12_py_known c12_py_cfg0 c12_py_default_pd = Some "C12-python-default-translation"%string /\
+  c12_py_dom c12_py_cfg0 (items_of c12_py_default_pd) = true /\
+  exists uses defs, c12_py_observe uc_exec c12_py_cfg0 c12_py_default_pd = Ok (uses, defs) /\
+                    In (lit "parse_rfc3339") uses /\ ~ In (lit "parse_rfc3339") defs /\ c12_good uses defs = false.
+Proof.
+  split; [vm_compute; reflexivity|]. split; [vm_compute; reflexivity|].
+  eexists. eexists. split; [vm_compute; reflexivity|].
+  split; [vm_compute; auto 20|]. split; [|vm_compute; reflexivity].
+  intros H. vm_compute in H. repeat (destruct H as [H|H]; [discriminate H|]). exact H.
+Qed.
+
+Example c12_python_nonvacuous :
+  c12_py_known c12_py_cfg0 c12_nonvac_pd = None /\ c12_py_dom c12_py_cfg0 (items_of c12_nonvac_pd) = true /\
+  exists uses defs, c12_py_observe uc_exec c12_py_cfg0 c12_nonvac_pd = Ok (uses, defs) /\
+                    In (lit "Dict") uses /\ c12_good uses defs = true.
+Proof.
+  split; [vm_compute; reflexivity|]. split; [vm_compute; reflexivity|].
+  eexists. eexists. split; [vm_compute; reflexivity|]. split; [vm_compute; auto 20|vm_compute; reflexivity].
+Qed.
+
 Example c12_go_nonvacuous :
   c12_go_dom c12_go_cfg0 (items_of c12_go_pd) = true /\
   c12_go_observe uc_exec c12_go_cfg0 c12_go_pd = Ok ([lit "json"; lit "time"], [lit "json"; lit "time"]).
